@@ -97,6 +97,7 @@ func runByz(e *Env) {
 	compress := tp.Chance(1, 5)
 	nTasks := 1 + tp.Next(2)
 	nOps := 2 + tp.Next(5)
+	tokenAware := false
 	e.Note("proto", proto)
 	e.Note("control", ctrl)
 	e.Note("auth", auth)
@@ -129,6 +130,18 @@ func runByz(e *Env) {
 	cfg.ReconnectInterval = time.Second
 	cfg.ReconnectionPolicy = &gocql.ConstantReconnectionPolicy{MaxRetries: 2, Interval: 200 * time.Millisecond}
 	cfg.PageSize = 3
+	if ctrl && tp.Chance(1, 3) {
+		// token-aware routing: the policy reads the keyspaces' replication settings from the
+		// schema tables (on its own goroutine, whenever a keyspace or the ring changes)
+		cfg.PoolConfig.HostSelectionPolicy = gocql.TokenAwareHostPolicy(gocql.RoundRobinHostPolicy())
+		cfg.Keyspace = "ks"
+		k.Fault("byz.token-aware-policy")
+		// (the policy fetches the keyspace's metadata holding the schema describer's mutex
+		// across its queries; a caller or an event handler that wants the same mutex meanwhile
+		// would freeze the bubble: one caller, no events, so the fetches follow one another)
+		tokenAware = true
+		nTasks = 1
+	}
 	// a wrong-kind SCHEMA_CHANGE result legitimately makes the driver wait for schema
 	// agreement for up to this long; keep it short so that bounds stay tight
 	cfg.MaxWaitSchemaAgreement = 2 * time.Second
@@ -551,7 +564,7 @@ func runByz(e *Env) {
 	evN := 0
 	schemaOps := hasSchemaOps
 	k.Sources = append(k.Sources, func() []kernel.Action {
-		if evN >= 4 {
+		if evN >= 4 || tokenAware {
 			return nil
 		}
 		return []kernel.Action{{Key: "event", Rank: 4, Weight: 1, Do: func() {
